@@ -264,6 +264,13 @@ def gen_case(rng, stream=None):
     if rng.random() < 0.3:        # the same table under other options
         case["variants"].append({"text": table_text(top_lines), "opts": gen_opts(rng, g, False)})
     case["evolve"] = gen_evolution(rng, g)
+    # undeclare one dependency between the build and the expansion: findSetupProduct then finds nothing while
+    # getSetupVersion still reports the version (the model's spv / sv); outside the property's premise -> oracle (i) + never_foreign only
+    case["tamper"] = [rng.choice(g["names"][1:])] if rng.random() < 0.07 else []
+    case["cli_check"] = rng.random() < 0.25          # also run `eups expandtable` itself and compare with the API call
+    case["expanded_deps"] = []
+    if stream == "cf" and rng.random() < 0.4:       # installed products usually carry expanded tables
+        case["expanded_deps"] = [[n, v] for n, v, _ in g["decl"] if (n, v) != (topn, topv) and rng.random() < 0.6]
     return case
 
 
@@ -306,15 +313,78 @@ def drop_caches(userdata):
                 os.unlink(p)
 
 
+def closure_of(case, n, v, build):
+    """[(name, version, optional)] the build-time closure of product (n, v) as its own expansion would have recorded it:
+    the products its table sets up (declared ones, at their build versions), descending unless the line carries -j."""
+    tables = {(a, b): l for a, b, l in case["decl"]}
+    out, seen = [], set()
+
+    def walk(n, v, opt):
+        for l in tables.get((n, v), []):
+            fl = l.get("flags") or []
+            if l["k"] != "setup" or "--external" in fl or l["name"] not in build:
+                continue
+            m = l["name"]
+            o = opt or l["optional"]
+            if m not in seen:
+                seen.add(m)
+                out.append((m, build[m], o))
+                if "-j" not in fl:
+                    walk(m, build[m], o)
+    walk(n, v, False)
+    return out
+
+
+def expanded_form(case, n, v):
+    """The table of (n, v) the way an installed product carries it: already expanded (cf stream only)."""
+    build = case["build"]
+    lines = [l for a, b, l in case["decl"] if (a, b) == (n, v)][0]
+    blocks = []
+    for l in lines:
+        is_setup = l["k"] == "setup"
+        if not blocks or blocks[-1][0] != is_setup:
+            blocks.append((is_setup, []))
+        blocks[-1][1].append(l)
+    last = max([i for i, b in enumerate(blocks) if b[0]], default=None)
+    out = []
+    for i, (is_setup, ls) in enumerate(blocks):
+        if not is_setup:
+            out += [render_line(l) for l in ls]
+            continue
+        if i == last:
+            out.append("if (type == exact) {")
+            for m, bm, o in closure_of(case, n, v, build):
+                out.append("   %s(%-15s -j %s)" % ("setupOptional" if o else "setupRequired", m, bm))
+            out.append("} else {")
+        else:
+            out.append("if (type != exact) {")
+        for l in ls:
+            spec = l.get("spec") or {}
+            m = l["name"]
+            words = [m] + list(l.get("flags") or [])
+            if "v" in spec:
+                words.append(spec["v"])
+            elif m in build:
+                words.append(build[m])
+            if "e" in spec:
+                words.append("[%s]" % spec["e"])
+            elif "v" not in spec and m in build:
+                words.append("[>= %s]" % build[m])
+            out.append("   %s(%s)" % ("setupOptional" if l["optional"] else "setupRequired", " ".join(words)))
+        out.append("}")
+    return "\n".join(out) + "\n"
+
+
 def install(stack, userdata, case):
     """(Re)create the stack of the case's build-time database."""
     shutil.rmtree(stack, ignore_errors=True)
     os.makedirs(os.path.join(stack, "ups_db"))
     drop_caches(userdata)
     topn, topv = case["top"]
+    exp = {tuple(x) for x in case.get("expanded_deps") or []}
     for n, v, lines in case["decl"]:
         fn = case.get("final_newline", True) if (n == topn and v == topv) else True
-        write_product(stack, n, v, table_text(lines, fn))
+        write_product(stack, n, v, expanded_form(case, n, v) if (n, v) in exp else table_text(lines, fn))
     for n, v in case["tags"].items():
         write_current(stack, n, v)
 
